@@ -7,10 +7,17 @@ mod conv_table;
 use conv_table::TABLE;
 use util::*;
 
+/// built inside /verif/harness_nostd (dasp_sample without its `std` feature)?
+const NOSTD: bool = cfg!(feature = "nostd");
+
 fn main() {
     let a = Args::parse();
+    if a.stream.ends_with("_nostd") != NOSTD {
+        if NOSTD { eprintln!("stream {} needs the std build", a.stream); std::process::exit(2); }
+        delegate_nostd("c01_nostd");
+    }
     match a.stream.as_str() {
-        "conv" => run(&a),
+        "conv" | "conv_nostd" => run(&a),
         s => { eprintln!("unknown stream {}", s); std::process::exit(2); }
     }
 }
@@ -51,7 +58,7 @@ fn call(f: fn(i128) -> i128, v: i128) -> Option<i128> { guarded(|| f(v)) }
 fn show(r: Option<i128>) -> String { match r { Some(x) => x.to_string(), None => "panic".into() } }
 
 pub fn run(a: &Args) {
-    let mut st = Stream::new(&a.out, "conv");
+    let mut st = Stream::new(&a.out, if NOSTD { "conv_nostd" } else { "conv" });
     let mut rng = Rng::new(a.seed, "conv");
     let mode = if cfg!(debug_assertions) { "dbg" } else { "rel" };
     let n_rand_model = if a.thorough() { 20_000 } else { 1_500 };
